@@ -95,8 +95,13 @@ class DistributionSampler(BaseSampler):
         ValueError: If the distribution type is unknown.
     """
     def __init__(self, distribution, seed=None, **params):
+        # each seeded sampler owns its random state, so that its sequence
+        # depends on its seed only (and not on other samplers or on other
+        # users of numpy's global generator)
         if seed is not None:
-            np.random.seed(seed)
+            self._rng = np.random.RandomState(seed)
+        else:
+            self._rng = np.random
         self.distribution = distribution
         self.params = params
 
@@ -109,9 +114,9 @@ class DistributionSampler(BaseSampler):
         """
         # TODO: consider vectorizing this method with 'size' parameter
         if self.distribution == 'normal':
-            return np.random.normal(**self.params)
+            return self._rng.normal(**self.params)
         elif self.distribution == 'uniform':
-            return np.random.uniform(**self.params)
+            return self._rng.uniform(**self.params)
         else:
             raise ValueError(f'Unknown distribution: {self.distribution}')
 
